@@ -60,7 +60,8 @@ class P:
         short = [" ".join(t) for t in __import__("itertools").product(G.ALPHA1 + G.WORDS1, repeat=3)]
         short += list(G.strings_upto(G.ALPHA1, 3))
         cases = [G.pcase(m) for m in muts + short]
-        return [{"name": "mutants-and-short-strings", "harness": "parse", "driver": None, "cases": cases, "impl_ok": located_ok,
+        from props import c02
+        return c02.token_parts(random.Random(seed + 7), tier, 2000 if tier == "quick" else 30000) + [{"name": "mutants-and-short-strings", "harness": "parse", "driver": None, "cases": cases, "impl_ok": located_ok,
                  "nontrivial": lambda c: len(unhx(c.split("\t")[0]).split()) >= 2,
                  "distribution": {"mutants": len(muts), "short": len(short)}}]
 
@@ -75,7 +76,10 @@ class P:
         o = C.run_harness("parse", [c])[0]
         print("case :", G.describe(c))
         print("impl :", o[:400])
-        if not located_ok(c, o):
+        i = C.run_harness("tokens", [c])[0]
+        j = C.run_driver("ptok", [c], [i])[0][1]
+        print("judge:", j[:400])
+        if not located_ok(c, o) or j.startswith("bad"):
             print("VIOLATION property=C03 replay=(replayed)")
             return 1
         print("replay: property holds on this case now")
